@@ -24,6 +24,9 @@ def calc_self(c):
         def make(self, name, b):
             return b.named["cal"].calc
 
+        def realize(self, v, ev, ctx):
+            return ctx["cals"]["cal"].calc
+
     return G()
 
 
@@ -33,6 +36,9 @@ def system_self():
     class G(Gen):
         def make(self, name, b):
             return b.named["cal"].system
+
+        def realize(self, v, ev, ctx):
+            return ctx["cals"]["cal"].system
 
     return G()
 
